@@ -14,6 +14,8 @@ def check(ctx):
     rep.floor("direct-edge index obligations", n4, 3)
     n5 = D.check_reflect(ctx, rep)
     rep.floor("reflect / conjunct obligations", n5, 6)
+    n7 = D.check_full_scans(ctx, rep)
+    rep.floor("iterator loops of the query functions", n7, 8)
     n6 = D.check_reflection_fits(ctx, rep)
     rep.floor("Reflection::fits / IsA obligations", n6, 2)
     rep.note("Not decided: the contents of any answer for a given defs grid (set-valued functions of runtime data), choices_for / associations / "
